@@ -7,7 +7,9 @@
      callS_ext   a call gives, inlined or not, a result that depends only on the extension
                  of the called function
      icallS_ext  the same for get_integer
-     expandS_ext expand() of a function is extensionally the function *)
+     expandS_ext expand() of a function is extensionally the function
+     callMS_ext  callS_ext for functions whose arguments are whole arrays (a matrix, a vector)
+                 and a scalar *)
 From Coq Require Import ZArith QArith Qcanon List Bool Arith Lia.
 Import ListNotations.
 From PV Require Import Model.C11_residual Model.C12_options.
@@ -30,6 +32,8 @@ Variable imapS : mapmode -> (Z -> Z) -> list Z -> list Z.
 Variable callS : callmode -> (Qc -> Qc -> nat -> option Qc) -> Qc -> Qc -> nat -> option Qc.
 Variable icallS : callmode -> (Z -> Z) -> Z -> Z.
 Variable expandS : (env -> list (option Qc)) -> env -> list (option Qc).
+Variable callMS : callmode -> ((Z -> Z -> Qc) -> (Z -> Qc) -> Qc -> nat -> option Qc) ->
+                  (Z -> Z -> Qc) -> (Z -> Qc) -> Qc -> nat -> option Qc.
 Variable P_expand_vectors P_expand_simplify P_scalar P_eliminable : gmodel -> gmodel.
 Variable P_aliases : bool -> gmodel -> gmodel.
 
@@ -40,13 +44,15 @@ Hypothesis callS_ext : forall c1 c2 F1 F2,
   (forall a b k, F1 a b k = F2 a b k) -> forall a b k, callS c1 F1 a b k = callS c2 F2 a b k.
 Hypothesis icallS_ext : forall c1 c2 F n, icallS c1 F n = icallS c2 F n.
 Hypothesis expandS_ext : forall F rho, expandS F rho = F rho.
+Hypothesis callMS_ext : forall c1 c2 F1 F2,
+  (forall M v x k, F1 M v x k = F2 M v x k) -> forall M v x k, callMS c1 F1 M v x k = callMS c2 F2 M v x k.
 
 Notation compile := (compile imapS icallS P_expand_vectors P_expand_simplify P_scalar P_eliminable P_aliases).
 Notation gen := (gen imapS icallS).
-Notation dae := (dae_residual_function mapS callS expandS).
-Notation ini := (initial_residual_function mapS callS expandS).
-Notation meta := (variable_metadata_function mapS callS expandS).
-Notation del := (delay_arguments_function mapS callS expandS).
+Notation dae := (dae_residual_function mapS callS expandS callMS).
+Notation ini := (initial_residual_function mapS callS expandS callMS).
+Notation meta := (variable_metadata_function mapS callS expandS callMS).
+Notation del := (delay_arguments_function mapS callS expandS callMS).
 
 Variable f1 f2 : flags.
 
@@ -59,57 +65,69 @@ Proof. unfold loop_vals. rewrite get_integer_eq. reflexivity. Qed.
 
 Lemma gen_ref_eq vals r : gen_ref imapS f1 vals r = gen_ref imapS f2 vals r.
 Proof.
-  destruct r; simpl; try reflexivity. destruct vals as [vs|]; [|reflexivity].
-  destruct (is_bare ix); [reflexivity|]. rewrite (imapS_ext (map_mode f1) (map_mode f2)). reflexivity.
+  destruct r; simpl; try reflexivity.
+  all: destruct vals as [vs|]; [|reflexivity].
+  all: destruct (is_bare ix); [reflexivity|]. all: rewrite (imapS_ext (map_mode f1) (map_mode f2)); reflexivity.
 Qed.
 
 (* ---- expressions ---- *)
 Definition callf_sim (c1 c2 : callmode -> nat -> Qc -> Qc -> nat -> option Qc) : Prop :=
   forall m1 m2 f x y k, c1 m1 f x y k = c2 m2 f x y k.
 
-Lemma geval_gen c1 c2 (Hc : callf_sim c1 c2) vals e :
-  forall rho, geval c1 (gen_x imapS f1 vals e) rho = geval c2 (gen_x imapS f2 vals e) rho.
+Definition callfm_sim (c1 c2 : callmode -> nat -> (Z -> Z -> Qc) -> (Z -> Qc) -> Qc -> nat -> option Qc) : Prop :=
+  forall m1 m2 f M v x k, c1 m1 f M v x k = c2 m2 f M v x k.
+
+Lemma geval_gen c1 c2 (Hc : callf_sim c1 c2) d1 d2 (Hd : callfm_sim d1 d2) vals e :
+  forall rho, geval c1 d1 (gen_x imapS f1 vals e) rho = geval c2 d2 (gen_x imapS f2 vals e) rho.
 Proof.
-  induction e as [q|r|a IHa|n a IHa b IHb|c IHc a IHa b IHb|f a IHa b IHb k]; intros rho; simpl.
+  induction e as [q|r|a IHa|n a IHa b IHb|c IHc a IHa b IHb|f a IHa b IHb k|f A b x IHx k]; intros rho; simpl.
   - reflexivity.
   - rewrite gen_ref_eq. reflexivity.
   - rewrite IHa. reflexivity.
   - rewrite IHa, IHb. reflexivity.
   - rewrite IHc, IHa, IHb. reflexivity.
   - rewrite IHa, IHb.
-    destruct (geval c2 (gen_x imapS f2 vals a) rho); [|reflexivity].
-    destruct (geval c2 (gen_x imapS f2 vals b) rho); [|reflexivity].
+    destruct (geval c2 d2 (gen_x imapS f2 vals a) rho); [|reflexivity].
+    destruct (geval c2 d2 (gen_x imapS f2 vals b) rho); [|reflexivity].
     apply Hc.
+  - rewrite IHx. destruct (geval c2 d2 (gen_x imapS f2 vals x) rho); [|reflexivity]. apply Hd.
 Qed.
 
 (* ---- function bodies ---- *)
-Lemma gexec1_gen c1 c2 (Hc : callf_sim c1 c2) ipar s rho :
-  gexec1 mapS c1 (gen_stmt imapS icallS f1 ipar s) rho = gexec1 mapS c2 (gen_stmt imapS icallS f2 ipar s) rho.
+Lemma gexec1_gen c1 c2 (Hc : callf_sim c1 c2) d1 d2 (Hd : callfm_sim d1 d2) ipar s rho :
+  gexec1 mapS c1 d1 (gen_stmt imapS icallS f1 ipar s) rho = gexec1 mapS c2 d2 (gen_stmt imapS icallS f2 ipar s) rho.
 Proof.
   destruct s as [v e|lo hi v e]; simpl.
-  - rewrite (geval_gen c1 c2 Hc). reflexivity.
+  - rewrite (geval_gen c1 c2 Hc d1 d2 Hd). reflexivity.
   - rewrite (loop_vals_eq ipar lo hi).
     apply fold_left_ext. intros acc p. unfold for_step. destruct acc as [r|]; [|reflexivity].
     rewrite (mapS_ext (map_mode f1) (map_mode f2) _
-               (fun i p' r0 => [geval c2 (gen_x imapS f2 (Some (loop_vals icallS f2 ipar lo hi)) e) (with_ip r0 i p')])).
+               (fun i p' r0 => [geval c2 d2 (gen_x imapS f2 (Some (loop_vals icallS f2 ipar lo hi)) e) (with_ip r0 i p')])).
     + reflexivity.
-    + intros i p' r0. rewrite (geval_gen c1 c2 Hc). reflexivity.
+    + intros i p' r0. rewrite (geval_gen c1 c2 Hc d1 d2 Hd). reflexivity.
 Qed.
 
-Lemma gexec_gen c1 c2 (Hc : callf_sim c1 c2) ipar body :
-  forall rho, gexec mapS c1 (map (gen_stmt imapS icallS f1 ipar) body) rho
-            = gexec mapS c2 (map (gen_stmt imapS icallS f2 ipar) body) rho.
+Lemma gexec_gen c1 c2 (Hc : callf_sim c1 c2) d1 d2 (Hd : callfm_sim d1 d2) ipar body :
+  forall rho, gexec mapS c1 d1 (map (gen_stmt imapS icallS f1 ipar) body) rho
+            = gexec mapS c2 d2 (map (gen_stmt imapS icallS f2 ipar) body) rho.
 Proof.
   induction body as [|s body IH]; intros rho; simpl; [reflexivity|].
-  rewrite (gexec1_gen c1 c2 Hc). destruct (gexec1 mapS c2 _ rho); [apply IH|reflexivity].
+  rewrite (gexec1_gen c1 c2 Hc d1 d2 Hd). destruct (gexec1 mapS c2 d2 _ rho); [apply IH|reflexivity].
 Qed.
 
-Lemma gfun_den_gen c1 c2 (Hc : callf_sim c1 c2) ipar f a b k :
-  gfun_den mapS c1 (gen_fun imapS icallS f1 ipar f) a b k = gfun_den mapS c2 (gen_fun imapS icallS f2 ipar f) a b k.
-Proof. unfold gfun_den, gen_fun. simpl. rewrite (gexec_gen c1 c2 Hc). reflexivity. Qed.
+Lemma gfun_den_gen c1 c2 (Hc : callf_sim c1 c2) d1 d2 (Hd : callfm_sim d1 d2) ipar f a b k :
+  gfun_den mapS c1 d1 (gen_fun imapS icallS f1 ipar f) a b k = gfun_den mapS c2 d2 (gen_fun imapS icallS f2 ipar f) a b k.
+Proof. unfold gfun_den, gen_fun. simpl. rewrite (gexec_gen c1 c2 Hc d1 d2 Hd). reflexivity. Qed.
+
+Lemma gfun_denM_gen c1 c2 (Hc : callf_sim c1 c2) d1 d2 (Hd : callfm_sim d1 d2) ipar f M v x k :
+  gfun_denM mapS c1 d1 (gen_fun imapS icallS f1 ipar f) M v x k
+  = gfun_denM mapS c2 d2 (gen_fun imapS icallS f2 ipar f) M v x k.
+Proof. unfold gfun_denM, gen_fun. simpl. rewrite (gexec_gen c1 c2 Hc d1 d2 Hd). reflexivity. Qed.
 
 Lemma no_calls_sim : callf_sim no_calls no_calls.
 Proof. intros m1 m2 f x y k. reflexivity. Qed.
+Lemma no_callsM_sim : callfm_sim no_callsM no_callsM.
+Proof. intros m1 m2 f M v x k. reflexivity. Qed.
 
 Lemma top_callf_gen ipar funs :
   callf_sim (top_callf mapS callS (map (fun nf => (fst nf, gen_fun imapS icallS f1 ipar (snd nf))) funs))
@@ -118,49 +136,74 @@ Proof.
   intros m1 m2 f x y k. unfold top_callf.
   induction funs as [|[g fd] funs IH]; simpl; [reflexivity|].
   destruct (Nat.eqb f g); [|exact IH].
-  apply callS_ext. intros a b k'. apply gfun_den_gen. exact no_calls_sim.
+  apply callS_ext. intros a b k'. apply gfun_den_gen; [exact no_calls_sim|exact no_callsM_sim].
+Qed.
+
+Lemma top_callfm_gen ipar funs :
+  callfm_sim (top_callfm mapS callMS (map (fun nf => (fst nf, gen_fun imapS icallS f1 ipar (snd nf))) funs))
+             (top_callfm mapS callMS (map (fun nf => (fst nf, gen_fun imapS icallS f2 ipar (snd nf))) funs)).
+Proof.
+  intros m1 m2 f M v x k. unfold top_callfm.
+  induction funs as [|[g fd] funs IH]; simpl; [reflexivity|].
+  destruct (Nat.eqb f g); [|exact IH].
+  apply callMS_ext. intros M' v' x' k'. apply gfun_denM_gen; [exact no_calls_sim|exact no_callsM_sim].
 Qed.
 
 (* ---- equations and delay arguments ---- *)
 Section Eqns.
 Variable ipar : nat -> Z.
-Variable funs : list (nat * sfun).
+Variable funs mfuns : list (nat * sfun).
 Variable db : nat.
 Notation ft fl := (map (fun nf => (fst nf, gen_fun imapS icallS fl ipar (snd nf))) funs).
+Notation mft fl := (map (fun nf => (fst nf, gen_fun imapS icallS fl ipar (snd nf))) mfuns).
+Notation ev fl := (gev mapS callS callMS (ft fl) (mft fl)).
 
-Lemma sub_eval c1 c2 (Hc : callf_sim c1 c2) vals l r rho :
-  geval c1 (sub (gen_x imapS f1 vals l) (gen_x imapS f1 vals r)) rho
-  = geval c2 (sub (gen_x imapS f2 vals l) (gen_x imapS f2 vals r)) rho.
-Proof. unfold sub. simpl. rewrite !(geval_gen c1 c2 Hc). reflexivity. Qed.
-
-Lemma body_eval c1 c2 (Hc : callf_sim c1 c2) vals (body : list (sx * sx)) rho :
-  map (fun c => geval c1 c rho) (map (fun lr => sub (gen_x imapS f1 vals (fst lr)) (gen_x imapS f1 vals (snd lr))) body)
-  = map (fun c => geval c2 c rho) (map (fun lr => sub (gen_x imapS f2 vals (fst lr)) (gen_x imapS f2 vals (snd lr))) body).
+Lemma gev_gen vals e rho : ev f1 (gen_x imapS f1 vals e) rho = ev f2 (gen_x imapS f2 vals e) rho.
 Proof.
-  rewrite !map_map. apply map_ext. intros [l r]. apply (sub_eval c1 c2 Hc).
+  unfold gev. apply geval_gen; [apply top_callf_gen|apply top_callfm_gen].
+Qed.
+
+Lemma sub_eval vals l r rho :
+  ev f1 (sub (gen_x imapS f1 vals l) (gen_x imapS f1 vals r)) rho
+  = ev f2 (sub (gen_x imapS f2 vals l) (gen_x imapS f2 vals r)) rho.
+Proof.
+  pose proof (gev_gen vals l rho) as Hl. pose proof (gev_gen vals r rho) as Hr.
+  unfold gev, sub in *. cbn [geval]. rewrite Hl, Hr. reflexivity.
+Qed.
+
+Lemma body_eval vals (body : list (sx * sx)) rho :
+  map (fun c => ev f1 c rho) (map (fun lr => sub (gen_x imapS f1 vals (fst lr)) (gen_x imapS f1 vals (snd lr))) body)
+  = map (fun c => ev f2 c rho) (map (fun lr => sub (gen_x imapS f2 vals (fst lr)) (gen_x imapS f2 vals (snd lr))) body).
+Proof.
+  rewrite !map_map. apply map_ext. intros [l r]. apply sub_eval.
 Qed.
 
 Lemma gen_eqn_eval q rho :
-  geqn_eval mapS callS (ft f1) (gen_eqn imapS icallS f1 ipar q) rho
-  = geqn_eval mapS callS (ft f2) (gen_eqn imapS icallS f2 ipar q) rho.
+  geqn_eval mapS callS callMS (ft f1) (mft f1) (gen_eqn imapS icallS f1 ipar q) rho
+  = geqn_eval mapS callS callMS (ft f2) (mft f2) (gen_eqn imapS icallS f2 ipar q) rho.
 Proof.
-  pose proof (top_callf_gen ipar funs) as Hc.
   destruct q as [l r|lo hi body|l e d|lo hi l e d]; simpl.
-  - f_equal. apply (sub_eval _ _ Hc).
+  - f_equal. apply sub_eval.
   - rewrite !map_length. rewrite (loop_vals_eq ipar lo hi). f_equal.
-    apply mapS_ext. intros i p r. apply (body_eval _ _ Hc).
-  - rewrite (geval_gen _ _ Hc). reflexivity.
+    apply mapS_ext. intros i p r. apply body_eval.
+  - f_equal. pose proof (gev_gen None l rho) as Hl. unfold gev, sub in *. cbn [geval]. rewrite Hl. reflexivity.
   - reflexivity.
 Qed.
 
-Lemma gen_eqns_eval qs : forall k rho,
-  flat_map (fun q => geqn_eval mapS callS (ft f1) q rho) (fst (gen_eqns imapS icallS f1 ipar db k qs))
-  = flat_map (fun q => geqn_eval mapS callS (ft f2) q rho) (fst (gen_eqns imapS icallS f2 ipar db k qs))
-  /\
-  flat_map (fun d => gdelay_eval mapS callS (ft f1) d rho) (snd (gen_eqns imapS icallS f1 ipar db k qs))
-  = flat_map (fun d => gdelay_eval mapS callS (ft f2) d rho) (snd (gen_eqns imapS icallS f2 ipar db k qs)).
+(* a residual whose right-hand side is a reference that does not depend on the flags *)
+Lemma sub_ref_eval vals l (r : gref) rho :
+  ev f1 (sub (gen_x imapS f1 vals l) (GRef r)) rho = ev f2 (sub (gen_x imapS f2 vals l) (GRef r)) rho.
 Proof.
-  pose proof (top_callf_gen ipar funs) as Hc.
+  pose proof (gev_gen vals l rho) as Hl. unfold gev, sub in *. cbn [geval]. rewrite Hl. reflexivity.
+Qed.
+
+Lemma gen_eqns_eval qs : forall k rho,
+  flat_map (fun q => geqn_eval mapS callS callMS (ft f1) (mft f1) q rho) (fst (gen_eqns imapS icallS f1 ipar db k qs))
+  = flat_map (fun q => geqn_eval mapS callS callMS (ft f2) (mft f2) q rho) (fst (gen_eqns imapS icallS f2 ipar db k qs))
+  /\
+  flat_map (fun d => gdelay_eval mapS callS callMS (ft f1) (mft f1) d rho) (snd (gen_eqns imapS icallS f1 ipar db k qs))
+  = flat_map (fun d => gdelay_eval mapS callS callMS (ft f2) (mft f2) d rho) (snd (gen_eqns imapS icallS f2 ipar db k qs)).
+Proof.
   induction qs as [|q qs IH]; intros k rho; [split; reflexivity|].
   destruct q as [l r|lo hi body|l e d|lo hi l e d]; cbn [gen_eqns].
   - destruct (IH k rho) as [IH1 IH2].
@@ -174,18 +217,16 @@ Proof.
   - destruct (IH (S k) rho) as [IH1 IH2].
     destruct (gen_eqns imapS icallS f1 ipar db (S k) qs) as [es1 ds1], (gen_eqns imapS icallS f2 ipar db (S k) qs) as [es2 ds2].
     cbn [fst snd flat_map] in *. split.
-    + rewrite IH1. f_equal. cbn [geqn_eval]. f_equal. unfold sub. cbn [geval].
-      rewrite (geval_gen _ _ Hc). reflexivity.
-    + rewrite IH2. f_equal. cbn [gdelay_eval]. rewrite !(geval_gen _ _ Hc). reflexivity.
+    + rewrite IH1. f_equal. cbn [geqn_eval]. f_equal. apply sub_ref_eval.
+    + rewrite IH2. f_equal. cbn [gdelay_eval]. rewrite !gev_gen. reflexivity.
   - rewrite (loop_vals_eq ipar lo hi).
     destruct (IH (S k) rho) as [IH1 IH2].
     destruct (gen_eqns imapS icallS f1 ipar db (S k) qs) as [es1 ds1], (gen_eqns imapS icallS f2 ipar db (S k) qs) as [es2 ds2].
     cbn [fst snd flat_map] in *. split.
     + rewrite IH1. f_equal. cbn [geqn_eval length]. f_equal.
-      apply mapS_ext. intros i p r. cbn [map]. f_equal. unfold sub. cbn [geval].
-      rewrite (geval_gen _ _ Hc). reflexivity.
-    + rewrite IH2. f_equal. cbn [gdelay_eval]. rewrite (geval_gen _ _ Hc). f_equal. f_equal.
-      apply mapS_ext. intros i p r. rewrite (geval_gen _ _ Hc). reflexivity.
+      apply mapS_ext. intros i p r. cbn [map]. f_equal. apply sub_ref_eval.
+    + rewrite IH2. f_equal. cbn [gdelay_eval]. rewrite gev_gen. f_equal. f_equal.
+      apply mapS_ext. intros i p r. rewrite gev_gen. reflexivity.
 Qed.
 End Eqns.
 
@@ -204,28 +245,28 @@ Lemma delay_states_eq m : g_delay_states (gen f1 m) = g_delay_states (gen f2 m).
 Proof. reflexivity. Qed.
 
 (* ---- the raw (not yet expanded) output functions of the generated model ---- *)
+Notation G fl m := (C12_options.gen imapS icallS fl m).
 Lemma raw_dae_eq m rho :
-  flat_map (fun q => geqn_eval mapS callS (g_funs (gen f1 m)) q rho) (g_eqs (gen f1 m))
-  = flat_map (fun q => geqn_eval mapS callS (g_funs (gen f2 m)) q rho) (g_eqs (gen f2 m)).
+  flat_map (fun q => geqn_eval mapS callS callMS (g_funs (G f1 m)) (g_mfuns (G f1 m)) q rho) (g_eqs (G f1 m))
+  = flat_map (fun q => geqn_eval mapS callS callMS (g_funs (G f2 m)) (g_mfuns (G f2 m)) q rho) (g_eqs (G f2 m)).
 Proof. unfold C12_options.gen. simpl. apply gen_eqns_eval. Qed.
 Lemma raw_ini_eq m rho :
-  flat_map (fun q => geqn_eval mapS callS (g_funs (gen f1 m)) q rho) (g_ieqs (gen f1 m))
-  = flat_map (fun q => geqn_eval mapS callS (g_funs (gen f2 m)) q rho) (g_ieqs (gen f2 m)).
+  flat_map (fun q => geqn_eval mapS callS callMS (g_funs (G f1 m)) (g_mfuns (G f1 m)) q rho) (g_ieqs (G f1 m))
+  = flat_map (fun q => geqn_eval mapS callS callMS (g_funs (G f2 m)) (g_mfuns (G f2 m)) q rho) (g_ieqs (G f2 m)).
 Proof. unfold C12_options.gen. simpl. apply gen_eqns_eval. Qed.
 Lemma raw_del_eq m rho :
-  flat_map (fun d => gdelay_eval mapS callS (g_funs (gen f1 m)) d rho) (g_delays (gen f1 m))
-  = flat_map (fun d => gdelay_eval mapS callS (g_funs (gen f2 m)) d rho) (g_delays (gen f2 m)).
+  flat_map (fun d => gdelay_eval mapS callS callMS (g_funs (G f1 m)) (g_mfuns (G f1 m)) d rho) (g_delays (G f1 m))
+  = flat_map (fun d => gdelay_eval mapS callS callMS (g_funs (G f2 m)) (g_mfuns (G f2 m)) d rho) (g_delays (G f2 m)).
 Proof.
   unfold C12_options.gen. simpl. rewrite !flat_map_app. f_equal; apply gen_eqns_eval.
 Qed.
 Lemma raw_meta_eq m rho :
-  flat_map (fun va => map (fun e => geval (top_callf mapS callS (g_funs (gen f1 m))) e rho) (snd va)) (g_attrs (gen f1 m))
-  = flat_map (fun va => map (fun e => geval (top_callf mapS callS (g_funs (gen f2 m))) e rho) (snd va)) (g_attrs (gen f2 m)).
+  flat_map (fun va => map (fun e => gev mapS callS callMS (g_funs (G f1 m)) (g_mfuns (G f1 m)) e rho) (snd va)) (g_attrs (G f1 m))
+  = flat_map (fun va => map (fun e => gev mapS callS callMS (g_funs (G f2 m)) (g_mfuns (G f2 m)) e rho) (snd va)) (g_attrs (G f2 m)).
 Proof.
   unfold C12_options.gen. simpl.
-  pose proof (top_callf_gen (s_ipar m) (s_funs m)) as Hc.
   induction (s_decls m) as [|d ds IH]; simpl; [reflexivity|].
-  rewrite IH. f_equal. rewrite !map_map. apply map_ext. intros e. apply (geval_gen _ _ Hc).
+  rewrite IH. f_equal. rewrite !map_map. apply map_ext. intros e. apply gev_gen.
 Qed.
 
 End NI.
@@ -237,6 +278,8 @@ Variable imapS : mapmode -> (Z -> Z) -> list Z -> list Z.
 Variable callS : callmode -> (Qc -> Qc -> nat -> option Qc) -> Qc -> Qc -> nat -> option Qc.
 Variable icallS : callmode -> (Z -> Z) -> Z -> Z.
 Variable expandS : (env -> list (option Qc)) -> env -> list (option Qc).
+Variable callMS : callmode -> ((Z -> Z -> Qc) -> (Z -> Qc) -> Qc -> nat -> option Qc) ->
+                  (Z -> Z -> Qc) -> (Z -> Qc) -> Qc -> nat -> option Qc.
 Variable P_expand_vectors P_expand_simplify P_scalar P_eliminable : gmodel -> gmodel.
 Variable P_aliases : bool -> gmodel -> gmodel.
 
@@ -247,7 +290,9 @@ Definition strategies_ok : Prop :=
   (forall c1 c2 F1 F2, (forall a b k, F1 a b k = F2 a b k) ->
      forall a b k, callS c1 F1 a b k = callS c2 F2 a b k) /\
   (forall c1 c2 F n, icallS c1 F n = icallS c2 F n) /\
-  (forall F rho, expandS F rho = F rho).
+  (forall F rho, expandS F rho = F rho) /\
+  (forall c1 c2 F1 F2, (forall M v x k, F1 M v x k = F2 M v x k) ->
+     forall M v x k, callMS c1 F1 M v x k = callMS c2 F2 M v x k).
 
 Notation compile := (compile imapS icallS P_expand_vectors P_expand_simplify P_scalar P_eliminable P_aliases).
 Notation gen := (gen imapS icallS).
@@ -264,10 +309,10 @@ Qed.
 (* the model that transfer_model returns and the four functions one can ask it for *)
 Definition same_meaning (g1 g2 : gmodel) : Prop :=
   g_lists g1 = g_lists g2 /\ g_delay_states g1 = g_delay_states g2 /\ g_types g1 = g_types g2 /\
-  (forall rho, dae_residual_function mapS callS expandS g1 rho = dae_residual_function mapS callS expandS g2 rho) /\
-  (forall rho, initial_residual_function mapS callS expandS g1 rho = initial_residual_function mapS callS expandS g2 rho) /\
-  (forall rho, variable_metadata_function mapS callS expandS g1 rho = variable_metadata_function mapS callS expandS g2 rho) /\
-  (forall rho, delay_arguments_function mapS callS expandS g1 rho = delay_arguments_function mapS callS expandS g2 rho).
+  (forall rho, dae_residual_function mapS callS expandS callMS g1 rho = dae_residual_function mapS callS expandS callMS g2 rho) /\
+  (forall rho, initial_residual_function mapS callS expandS callMS g1 rho = initial_residual_function mapS callS expandS callMS g2 rho) /\
+  (forall rho, variable_metadata_function mapS callS expandS callMS g1 rho = variable_metadata_function mapS callS expandS callMS g2 rho) /\
+  (forall rho, delay_arguments_function mapS callS expandS callMS g1 rho = delay_arguments_function mapS callS expandS callMS g2 rho).
 
 Lemma expand_wrap g F rho : (forall F r, expandS F r = F r) -> expand_mx_func expandS g F rho = F rho.
 Proof. intros H. unfold expand_mx_func. destruct (g_expand g); [apply H|reflexivity]. Qed.
@@ -276,7 +321,7 @@ Theorem noninterference (Hs : strategies_ok) (o : other) (m : smodel) (f1 f2 : f
   no_simpl o = true ->
   exists g1 g2, compile f1 o m = Ok g1 /\ compile f2 o m = Ok g2 /\ same_meaning g1 g2.
 Proof.
-  destruct Hs as (Hmap & Himap & Hcall & Hicall & Hexp). intros Ho.
+  destruct Hs as (Hmap & Himap & Hcall & Hicall & Hexp & HcallM). intros Ho.
   eexists. eexists. split; [apply (compile_plain f1 o m Ho)|]. split; [apply (compile_plain f2 o m Ho)|].
   assert (X : forall (b : bool) (g : gmodel),
     g_lists (if b then set_expand g else g) = g_lists g /\
@@ -285,6 +330,7 @@ Proof.
     g_eqs (if b then set_expand g else g) = g_eqs g /\
     g_ieqs (if b then set_expand g else g) = g_ieqs g /\
     g_funs (if b then set_expand g else g) = g_funs g /\
+    g_mfuns (if b then set_expand g else g) = g_mfuns g /\
     g_attrs (if b then set_expand g else g) = g_attrs g /\
     g_delays (if b then set_expand g else g) = g_delays g).
   { intros b g. destruct b; repeat split; reflexivity. }
@@ -294,14 +340,15 @@ Proof.
   pose proof (fun b g => proj1 (proj2 (proj2 (proj2 (X b g))))) as E.
   pose proof (fun b g => proj1 (proj2 (proj2 (proj2 (proj2 (X b g)))))) as Ie.
   pose proof (fun b g => proj1 (proj2 (proj2 (proj2 (proj2 (proj2 (X b g))))))) as Fu.
-  pose proof (fun b g => proj1 (proj2 (proj2 (proj2 (proj2 (proj2 (proj2 (X b g)))))))) as A.
-  pose proof (fun b g => proj2 (proj2 (proj2 (proj2 (proj2 (proj2 (proj2 (X b g)))))))) as De.
+  pose proof (fun b g => proj1 (proj2 (proj2 (proj2 (proj2 (proj2 (proj2 (X b g)))))))) as Mf.
+  pose proof (fun b g => proj1 (proj2 (proj2 (proj2 (proj2 (proj2 (proj2 (proj2 (X b g))))))))) as A.
+  pose proof (fun b g => proj2 (proj2 (proj2 (proj2 (proj2 (proj2 (proj2 (proj2 (X b g))))))))) as De.
   unfold same_meaning. rewrite !L, !D, !T.
   split; [apply lists_eq; assumption|].
   split; [reflexivity|].
   split; [apply types_eq; assumption|].
   unfold dae_residual_function, initial_residual_function, variable_metadata_function, delay_arguments_function.
-  repeat split; intros rho; rewrite !(expand_wrap _ _ _ Hexp), ?E, ?Ie, ?Fu, ?A, ?De.
+  repeat split; intros rho; rewrite !(expand_wrap _ _ _ Hexp), ?E, ?Ie, ?Fu, ?Mf, ?A, ?De.
   - apply raw_dae_eq; assumption.
   - apply raw_ini_eq; assumption.
   - apply raw_meta_eq; assumption.
@@ -316,18 +363,20 @@ Fixpoint call_free (e : sx) : bool :=
   | SBin _ a b => call_free a && call_free b
   | SIf c a b => call_free c && call_free a && call_free b
   | SCall _ _ _ _ => false
+  | SCallM _ _ _ _ _ => false
   end.
 
 Lemma gen_x_literal (Himap : forall m1 m2 f vals, imapS m1 f vals = imapS m2 f vals) f1 f2 vals e :
   call_free e = true -> gen_x imapS f1 vals e = gen_x imapS f2 vals e.
 Proof.
-  induction e as [q|r|a IHa|n a IHa b IHb|c IHc a IHa b IHb|f a IHa b IHb k]; simpl; intros H.
+  induction e as [q|r|a IHa|n a IHa b IHb|c IHc a IHa b IHb|f a IHa b IHb k|f A b x IHx k]; simpl; intros H.
   - reflexivity.
   - rewrite (gen_ref_eq imapS Himap f1 f2). reflexivity.
   - rewrite IHa by exact H. reflexivity.
   - apply andb_prop in H. destruct H as [Ha Hb]. rewrite IHa, IHb by assumption. reflexivity.
   - apply andb_prop in H. destruct H as [H Hb]. apply andb_prop in H. destruct H as [Hc Ha].
     rewrite IHc, IHa, IHb by assumption. reflexivity.
+  - discriminate.
   - discriminate.
 Qed.
 
@@ -354,9 +403,10 @@ Qed.
 End Pipeline.
 
 (* the reference strategies satisfy the hypotheses (non-vacuity) *)
-Lemma reference_strategies_ok : strategies_ok mapR imapR callR icallR expandR.
+Lemma reference_strategies_ok : strategies_ok mapR imapR callR icallR expandR callMR.
 Proof.
-  unfold strategies_ok, mapR, imapR, callR, icallR, expandR. repeat split; try reflexivity.
+  unfold strategies_ok, mapR, imapR, callR, icallR, expandR, callMR. repeat split; try reflexivity.
   - intros _ _ b1 b2 H vals rho. unfold map_ref. apply map_ext. intros [p i]. apply H.
   - intros _ _ F1 F2 H a b k. apply H.
+  - intros _ _ F1 F2 H M v x k. apply H.
 Qed.
